@@ -159,6 +159,12 @@ def _optimize_contractions(relevant_obj_names: tuple[str],
         # remove the contracted names and indices
         remaining_pos = [pos for pos in range(len(relevant_obj_names))
                          if pos not in group]
+        # an index that also occurs on one of the remaining objects must not
+        # be summed in the current contraction -> the group is not valid
+        remaining_idx = {idx for pos in remaining_pos
+                         for idx in relevant_obj_indices[pos]}
+        if any(idx in remaining_idx for idx in contraction.contracted):
+            continue
         remaining_names = (contraction.contraction_name,
                            *(relevant_obj_names[pos] for pos in remaining_pos))
         remaining_indices = (contraction.target, *(relevant_obj_indices[pos]
